@@ -220,6 +220,11 @@ class C08(Check):
             if d == "s2c" and rng.random() < 0.7:
                 at = rng.randrange(max(s2c_0 - (s2c_p - s2c_0) - 2, 0), s2c_p + 1)
         plan["cuts"] = [{"dir": d, "at": at, "kind": kind}]
+        plan["linger"] = rng.choice([0.0, 0.0, 0.02]) if index >= len(cells) else 0.0
+        if index >= len(cells) and kind in ("EOF", "RST") and rng.random() < 0.15:
+            # the peer closes / resets the idle connection BEFORE the exchange starts (no byte of it is on the wire yet):
+            # the cut is fired right after the connect, the operation starts 0.05 - 0.4 s later
+            plan["cuts"] = [{"dir": "s2c", "at": 0, "kind": kind, "pre": rng.choice([0.05, 0.4])}]
         if index >= len(cells) and rng.random() < 0.25:
             # double fault: a second cut on the connection established by the reconnect
             s2, o2, d2, k2, a2 = cells[rng.randrange(len(cells))]
@@ -261,6 +266,8 @@ class C08(Check):
             netp = plan["net"]
             net.policy_factory = lambda i, d: Policy(seed=netp["seed"] + 2 * i + (d == "s2c"), lat_min=netp["lat"][0], lat_max=netp["lat"][1], segment=netp["segment"])
             for c in plan["cuts"]:
+                if c.get("pre"):
+                    continue
                 net.cuts.append(Cut(dir=c["dir"], at=c["at"], kind=c["kind"], conn=c.get("conn", 0), stall=plan.get("stall", 0.0)))
             net.install()
             holder.update(net=net, rec=rec)
@@ -353,6 +360,10 @@ class C08(Check):
             o, v = await step("connect", cls.connect(uri), 2.0 + 0.1)
             if o == "ok":
                 tr = v
+                pre = next((c for c in plan["cuts"] if c.get("pre")), None)
+                if pre is not None and net.connections:
+                    net.connections[0].fire_cut(Cut(dir="s2c", at=0, kind=pre["kind"], conn=0), rest=None)
+                    await asyncio.sleep(pre["pre"])
                 if op == "t_read":
                     o, v = await step("write", tr.write(REQ), (ack if ack else 0.0) + 0.01)
                     if o == "ok":
@@ -368,6 +379,9 @@ class C08(Check):
                     ecu = ECU(tr, timeout=1.0, max_retry=0)
                     await step("wait", ecu.wait_for_ecu(timeout=plan["wait_timeout"]), plan["wait_timeout"] + 0.6)
                     tr = ecu.transport
+                if plan.get("linger"):
+                    # the caller gets round to closing a little later: a reset / EPIPE provoked by its last write has arrived by then
+                    await asyncio.sleep(plan["linger"])
                 await step("close1", tr.close(), 1.0)
                 await step("close2", tr.close(), 1.0)
             await asyncio.sleep(0.01)
@@ -462,6 +476,14 @@ class C08(Check):
         back_in_time = r_ is not None and len(fired) == 1 and 0.0 <= r_ < backoff - 0.02
         if back_in_time and not all_accepted:
             bump(res["probes"], "peer_back_before_the_clients_backoff_elapsed")
+        # silence BEFORE the acknowledgement (the request never arrives completely) is detectable on the acknowledged
+        # transports: the write fails with a connection error after the ack time, and the client reconnects like after EOF
+        c0 = plan["cuts"][0]
+        silent_before_ack = (scheme in ("hsfz", "doip") and len(plan["cuts"]) == 1 and len(fired) == 1 and c0["kind"] == "BLACKHOLE" and c0["dir"] == "c2s"
+                             and not c0.get("pre") and ack and T is not None and T > ack + 0.3)
+        if silent_before_ack and op == "request" and plan["max_retry"] >= 1 and (all_accepted or back_in_time):
+            bump(res["probes"], "silence_before_the_acknowledgement")
+            detectable = True
         if op == "request" and detectable and plan["max_retry"] >= len(fired) and (all_accepted or back_in_time):
             s = next((s for s in steps if s["name"] == "request"), None)
             if s is not None and (s["out"] != "ok" or s["val"] != REPLY):
